@@ -328,7 +328,7 @@ fn read_checksum(input: &[u8]) -> std::io::Result<u64> {
 pub fn header_parser(i: &[u8]) -> IResult<&[u8], (BlockType, Headers, bool)> {
     // https://www.rfc-editor.org/rfc/rfc9580.html#name-forming-ascii-armor
 
-    let (i, prefix) = take_until("-----")(i)?;
+    let (i, prefix) = take_until("-----BEGIN ")(i)?;
     let has_leading_data = !prefix.is_empty();
 
     // "An Armor Header Line, appropriate for the type of data" (returned as 'typ')
